@@ -72,3 +72,7 @@ func shortFunc(l string) string {
 	}
 	return l
 }
+
+// CurGoid returns the id of the calling goroutine (for harness code that has to
+// attribute a callback without a context to the task that is executing it).
+func CurGoid() int64 { return curGoid() }
